@@ -5,7 +5,7 @@
 (* not) x every request, followed by growth steps and further loop runs.  *)
 EXTENDS Subscribe, SubscribeReqs, TLC
 
-CONSTANTS N, MaxSegs, MaxOps, Ids
+CONSTANTS N, MaxSegs, MaxOps, Ids, TakeNs
 VARIABLES last, nOps
 mcvars == <<vars, last, nOps>>
 
@@ -33,6 +33,11 @@ Shapes ==
 
 Reqs == ReqsFor(N)
 
+\* how many messages a subscriber receives before it stops receiving (-1 = all)
+TakeAll == {-1}
+TakeQuick == {-1, 1}
+TakeThorough == {-1, 0, 1, 2}
+
 Step(a) == nOps < MaxOps /\ nOps' = nOps + 1 /\ last' = a
 
 MCInit ==
@@ -43,24 +48,29 @@ MCInit ==
 
 AnyOpen == \E id \in SubIds : subs[id].open
 
-MCSub(id, req) == subs[id].st = "" /\ ~subs[id].open /\ DoSub(id, req) /\ Step([a |-> "Sub", id |-> id, req |-> req])
-MCDrain(id) == last.a # "Sub" /\ DoDrain(id) /\ Step([a |-> "Drain", id |-> id])
+MCSub(id, req, n) == /\ subs[id].st = "" /\ ~subs[id].open /\ (n # -1 => ~req.rev)
+                     /\ DoSub(id, req, n) /\ Step([a |-> "Sub", id |-> id, req |-> req, n |-> n])
+MCDrain(id) == last.a # "Sub" /\ DoDrain(id, -1, TRUE) /\ Step([a |-> "Drain", id |-> id, n |-> -1])
 MCPublish == AnyOpen /\ Newest + 1 <= N + 1 /\ DoPublish(<<Rec(Newest + 1)>>) /\ Step([a |-> "Publish"])
 MCTail == AnyOpen /\ Newest + 1 <= N + 1 /\ DoTail(<<Rec(Newest + 1)>>) /\ Step([a |-> "Tail"])
 MCCommit == AnyOpen /\ log # <<>> /\ hw < Last(log).off /\ DoCommit /\ Step([a |-> "Commit"])
 MCReadonly == AnyOpen /\ ~ro /\ DoReadonly(TRUE) /\ Step([a |-> "Readonly", b |-> TRUE])
+\* a clean under a subscriber that has stopped receiving in the middle of the log
+MCClean(gone) == /\ \E id \in SubIds : subs[id].open /\ subs[id].st = "more"
+                 /\ gone # {} /\ DoClean(gone) /\ Step([a |-> "Clean"])
 
 MCNext ==
-  \/ \E id \in Ids, req \in Reqs : MCSub(id, req)
+  \/ \E id \in Ids, req \in Reqs, n \in TakeNs : MCSub(id, req, n)
   \/ \E id \in Ids : MCDrain(id)
   \/ MCPublish \/ MCTail \/ MCCommit \/ MCReadonly
+  \/ \E gone \in SUBSET Cleanable : MCClean(gone)
 
 MCSpec == MCInit /\ [][MCNext]_mcvars
 
 StepOK ==
   LET a == last' IN
-  CASE a.a = "Sub" -> P_Sub(a.id, a.req)
-    [] a.a = "Drain" -> P_Drain(a.id)
+  CASE a.a = "Sub" -> P_Sub(a.id, a.req, a.n)
+    [] a.a = "Drain" -> P_Drain(a.id, a.n)
     [] OTHER -> TRUE
 StepsOK == [][StepOK]_mcvars
 MonotoneOK == [][Monotone]_mcvars
